@@ -15,7 +15,19 @@ def run(rep, kf, tier, seed):
     reg = Registry()
     cu.build(reg)
     engine_a.discharge(rep, kf, reg, "C09", tier, seed)
+    # scope uniqueness of an operation's parameters: inductive contract of the conflict resolution (any number of parameters)
+    from pyvc import engine_b
+    import contracts.param_conflicts as pc
+    engine_b.discharge(rep, kf, [pc.conflicts_contract()], "C09", tier, seed)
     from props.common import run_bounded
     run_bounded(rep, kf, "C09", ["param_conflicts", "model_properties", "enum_values"], tier)
     rep.trusted.extend(TRUSTED)
+    rep.assumptions.extend([
+        "_check_parameters_for_conflicts: Endpoint.iter_all_parameters yields every parameter exactly once as (location, "
+        "property) and parameter objects are pairwise distinct (assumed contract of the generator method); the location "
+        "enum formats as its value (StrEnum)",
+        "_check_parameters_for_conflicts residual, not proved: a parameter already recorded in modified_params is renamed by "
+        "the reserved-name branch in the last pass (needs a history invariant over earlier passes); covered only by the "
+        "bounded stand-in param_conflicts",
+    ])
     return {"level": "proof"}
